@@ -54,7 +54,7 @@ def run(ctx):
         "float values are decided only where the conversion is the identity or the value is an integer the float type holds "
         "exactly; narrowing an arbitrary f64 to f32 is not decided; float-to-text and non-integral float-to-integer casts in "
         "extend_* are wildcards",
-        "truncate(0) of a single-string value is not decided (ValueList!OpUndecided); variants Str/Strs are compared as one class",
+        "variants Str/Strs are compared as one class; truncate(0) leaves no items on every variant (incl. a single string)",
     ]
     vlib.build_harness(["drv_conv"])
 
